@@ -126,6 +126,112 @@ struct D {
 }
 
 
+PROTO_RESERVED = {"syntax", "import", "weak", "public", "package", "option", "repeated", "optional", "required", "group", "oneof", "map", "extensions",
+                  "to", "max", "reserved", "enum", "message", "extend", "service", "rpc", "stream", "returns", "true", "false", "inf", "nan",
+                  "double", "float", "int32", "int64", "uint32", "uint64", "sint32", "sint64", "fixed32", "fixed64", "sfixed32", "sfixed64",
+                  "bool", "string", "bytes"}
+PROTO_SCALARS = ["double", "float", "int32", "int64", "uint32", "uint64", "sint32", "sint64", "fixed32", "fixed64", "sfixed32", "sfixed64", "bool", "string", "bytes"]
+PROTO_KEYS = ["int32", "int64", "uint32", "uint64", "sint32", "sint64", "fixed32", "fixed64", "sfixed32", "sfixed64", "bool", "string"]
+
+
+def nasty_proto(r, name):
+    """a G_proto document (DESIGN.md section 7): proto2 or proto3, package, messages nested to depth 3 with enums, the 15 scalar
+    kinds, message / enum fields, singular / optional / repeated / required, maps, oneofs, a service; identifiers drawn from Rust
+    keywords and case-conversion collisions; recursion through singular, repeated, map and oneof members"""
+    syntax = r.choice(["proto3", "proto3", "proto2"])
+    lines = [f'syntax = "{syntax}";', f"package {r.choice(['pk', 'pk.inner', 'type_.v1', 'r.mod_.x'])}{name};", ""]
+    msg_pool = [k for k in KEYWORDS + STD_NAMES + sum(COLLIDE, []) if k not in PROTO_RESERVED and k not in ("self", "Self", "super", "crate")]
+    fld_pool = [k for k in KEYWORDS + sum(COLLIDE, []) + ["value", "data", "buf", "ctx", "wire_type", "tag", "msg", "len"] if k not in PROTO_RESERVED]
+    counter = [0]
+
+    def pick(pool, used, cap=False):
+        for _ in range(40):
+            n = r.choice(pool)
+            if cap:
+                n = n[0].upper() + n[1:] if n[0].isalpha() else "M" + n
+            if re.sub("_", "", n).lower() not in used:
+                used.add(re.sub("_", "", n).lower())
+                return n
+        counter[0] += 1
+        n = ("M" if cap else "f") + str(counter[0])
+        used.add(n.lower())
+        return n
+    top_used = set()
+    top_msgs = [pick(msg_pool, top_used, cap=True) for _ in range(r.randrange(3, 6))]
+    top_enums = [pick(msg_pool, top_used, cap=True) for _ in range(r.randrange(1, 3))]
+
+    def enum_text(n, ind):
+        used = set()
+        # enum values live in the enclosing scope in protobuf: prefix with the enum name to keep them unique
+        vals = [f"{n}_{pick(fld_pool, used)}".upper() if r.random() < 0.5 else f"{n}_{pick(fld_pool, used)}" for _ in range(r.randrange(1, 4))]
+        return [f"{ind}enum {n} {{"] + [f"{ind}  {v} = {i};" for i, v in enumerate(vals)] + [f"{ind}}}"]
+
+    def message_text(n, path, depth, ind):
+        out = [f"{ind}message {n} {{"]
+        used, nested_used = set(), set()
+        nested_msgs, nested_enums = [], []
+        if depth < 3 and r.random() < 0.6:
+            for _ in range(r.randrange(1, 3)):
+                nested_msgs.append(pick(msg_pool, nested_used, cap=True))
+            if r.random() < 0.5:
+                nested_enums.append(pick(msg_pool, nested_used, cap=True))
+        for e in nested_enums:
+            out += enum_text(e, ind + "  ")
+        for m in nested_msgs:
+            out += message_text(m, path + [n], depth + 1, ind + "  ")
+        msg_refs = top_msgs + nested_msgs + ([".".join(path[1:] + [n])] if len(path) > 1 else [])
+        enum_refs = top_enums + nested_enums
+        tag = [0]
+
+        def nt():
+            tag[0] += r.choice([1, 1, 1, 2, 15, 2000])
+            return tag[0]
+
+        def fty(allow_msg=True):
+            c = r.random()
+            if allow_msg and c < 0.3:
+                return r.choice(msg_refs)
+            if c < 0.42:
+                return r.choice(enum_refs)
+            return r.choice(PROTO_SCALARS)
+        for _ in range(r.randrange(2, 7)):
+            c = r.random()
+            fname = pick(fld_pool, used)
+            if c < 0.18:
+                vt = fty()
+                out.append(f"{ind}  map<{r.choice(PROTO_KEYS)}, {vt}> {fname} = {nt()};")
+            elif c < 0.36:
+                out.append(f"{ind}  repeated {fty()} {fname} = {nt()};")
+            elif c < 0.5:
+                lab = "optional" if syntax == "proto3" or r.random() < 0.7 else "required"
+                t = fty()
+                if lab == "required" and t in msg_refs:
+                    lab = "optional"      # a required self-reference has no finite value
+                out.append(f"{ind}  {lab} {t} {fname} = {nt()};")
+            else:
+                out.append(f"{ind}  {'optional ' if syntax == 'proto2' else ''}{fty()} {fname} = {nt()};")
+        if r.random() < 0.5:
+            out.append(f"{ind}  oneof {pick(fld_pool, used)} {{")
+            for _ in range(r.randrange(1, 4)):
+                t = fty(allow_msg=True)
+                out.append(f"{ind}    {t} {pick(fld_pool, used)} = {nt()};")
+            out.append(f"{ind}  }}")
+        out.append(f"{ind}}}")
+        return out
+    for e in top_enums:
+        lines += enum_text(e, "")
+    for m in top_msgs:
+        lines += message_text(m, [""], 1, "")
+    if r.random() < 0.7:
+        lines.append(f"service {pick(msg_pool, top_used, cap=True)} {{")
+        used = set()
+        for _ in range(r.randrange(1, 4)):
+            a, b = r.choice(top_msgs), r.choice(top_msgs)
+            lines.append(f"  rpc {pick(msg_pool, used, cap=True)}({r.choice(['', 'stream '])}{a}) returns ({r.choice(['', 'stream '])}{b});")
+        lines.append("}")
+    return "\n".join(lines) + "\n"
+
+
 def write_docs(workdir, seed, tier):
     src = os.path.join(workdir, "src")
     shutil.rmtree(src, ignore_errors=True)
@@ -133,13 +239,26 @@ def write_docs(workdir, seed, tier):
     docs = []
     for k, text in EXTRA.items():
         open(os.path.join(src, k + ".thrift"), "w").write(text)
-        docs.append((k, os.path.join(src, k + ".thrift"), text))
+        docs.append((k, os.path.join(src, k + ".thrift"), text, "thrift"))
     r = random.Random(seed * 101 + 14)
     for i in range(3 if tier == "quick" else 16):
         d = nasty_doc(r, f"n{i}")
         text = idlgen.render(d)
         open(os.path.join(src, d["name"] + ".thrift"), "w").write(text)
-        docs.append((d["name"], os.path.join(src, d["name"] + ".thrift"), text))
+        docs.append((d["name"], os.path.join(src, d["name"] + ".thrift"), text, "thrift"))
+    # G_proto: the fixed protobuf corpus of the pb track, the repository's own protobuf test documents, generated documents
+    fixed = sorted(os.listdir(os.path.join(HARNESS, "pbcorpus"))) if os.path.isdir(os.path.join(HARNESS, "pbcorpus")) else []
+    for f in fixed:
+        if f.endswith(".proto"):
+            text = open(os.path.join(HARNESS, "pbcorpus", f)).read()
+            q = os.path.join(src, "pc_" + f)
+            open(q, "w").write(text)
+            docs.append(("pc_" + f[:-6], q, text, "protobuf"))
+    for i in range(3 if tier == "quick" else 16):
+        text = nasty_proto(r, f"q{i}")
+        q = os.path.join(src, f"q{i}.proto")
+        open(q, "w").write(text)
+        docs.append((f"q{i}", q, text, "protobuf"))
     return docs
 
 
@@ -152,21 +271,23 @@ def step(cfg, tier, seed, workdir, env):
         shutil.rmtree(p) if os.path.isdir(p) else os.remove(p)
     oracle_fails, samples, distinct, mods, evaluations = [], [], [], [], 0
     origin = {}
-    for name, idl, text in docs:
+    for name, idl, text, kind in docs:
         for cname, flags in configs:
+            if kind == "protobuf" and "--keep" in flags:
+                continue      # unknown-field retention is a Thrift option
             mod = f"{name}_{cname}"
             outdir = os.path.join(CHECK_DIR, mod)
             os.makedirs(outdir, exist_ok=True)
             out = os.path.join(outdir, "gen.rs")
-            p = subprocess.run([GENTOOL, "thrift", out] + flags + ["--", idl], env=env, stdout=subprocess.PIPE, stderr=subprocess.STDOUT, text=True, timeout=600)
+            p = subprocess.run([GENTOOL, kind, out] + flags + ["--", idl], env=env, stdout=subprocess.PIPE, stderr=subprocess.STDOUT, text=True, timeout=600)
             evaluations += 1
             distinct.append(mod + ":" + str(len(text)))
             if p.returncode != 0 or not os.path.exists(out):
                 msg = [l for l in p.stdout.splitlines() if "panicked" in l or "Error" in l or "error" in l][:3]
-                oracle_fails.append(("C14", f"gentool thrift {' '.join(flags)} -- {idl}\n{text}", "C14", f"pilota-build did not terminate normally on {name} [{cname}]: {' | '.join(msg) or p.stdout[-300:]}", "abort"))
+                oracle_fails.append(("C14", f"gentool {kind} {' '.join(flags)} -- {idl}\n{text}", "C14", f"pilota-build did not terminate normally on {name} [{cname}]: {' | '.join(msg) or p.stdout[-300:]}", "abort"))
                 continue
             mods.append(mod)
-            origin[mod] = (name, cname, idl, text, flags)
+            origin[mod] = (name, cname, idl, text, flags, kind)
     lib = "#![allow(warnings, clippy::all)]\n" + "\n".join(f'pub mod m_{m} {{ include!("{os.path.join(CHECK_DIR, m, "gen.rs")}"); }}' for m in mods) + "\n"
     open(os.path.join(CHECK_DIR, "lib.rs"), "w").write(lib)
     e = dict(env, GEN_CHECK_DIR=CHECK_DIR)
@@ -181,8 +302,8 @@ def step(cfg, tier, seed, workdir, env):
         if not bad:
             oracle_fails.append(("C14", "cargo check -p gencheck", "C14", "emitted code does not type-check: " + p.stdout[-600:], "error"))
         for mod, errs in bad.items():
-            name, cname, idl, text, flags = origin[mod]
-            oracle_fails.append(("C14", f"gentool thrift {' '.join(flags)} -- {idl}\n{text}", "C14",
+            name, cname, idl, text, flags, kind = origin[mod]
+            oracle_fails.append(("C14", f"gentool {kind} {' '.join(flags)} -- {idl}\n{text}", "C14",
                                  f"emitted code for {name} [{cname}] does not type-check: {errs[0]}" + (f" (+{len(errs) - 1} more)" if len(errs) > 1 else ""), "error"))
     for m in mods[:3]:
         samples.append({"document": origin[m][0], "config": origin[m][1], "idl_head": origin[m][3][:200]})
